@@ -1,11 +1,13 @@
 from ..framework import Spec
 from ..ties_bits import parts_tie
-from ..ties_sys import sys_tie, isa_tie, macro_scenario_tie
+from ..ties_sys import sys_tie, isa_tie, macro_scenario_tie, constraint_scenario_tie
 
 SPEC = Spec(
     pid='C12',
     coq_needs=['Base', 'Bits', 'BitsSpec', 'BitsProofs', 'Program', 'Match', 'ProgramIsa', 'Properties/C12'],
     ties=[parts_tie(), sys_tie('C12', n_quick=300),
           # constraints on operands of instructions inside macros (relative offsets from each step's own address)
-          isa_tie({'p_macros': 1.0}, n_quick=200, name='isa_macros'), macro_scenario_tie()],
+          isa_tie({'p_macros': 1.0}, n_quick=200, name='isa_macros'), macro_scenario_tie(),
+          # sliced addresses narrower than half the address width; relative offsets with a single configured bound
+          constraint_scenario_tie()],
 )
